@@ -138,7 +138,8 @@ def origin_args(ctx, rule):
                     detail=(str(got_) + " " + str(muts_))[:300], fail="IgnoreFilesFromOriginArgs::%s alters what it is given (%s %s): a thinned-out watch list reads as `no restriction`, reordered explicit files change precedence" % (nm_, str(got_)[:160], muts_))
     ca = body_of(ctx, rule, A14 + "::canonicalise")
     lit_ = [x for x in thir.find(thir.root(ca), "adt") if x.get("adt", "").endswith("IgnoreFilesFromOriginArgs")]
-    got_ = [{k: pathx.desc(v) for k, v in x["f"]} for x in lit_]
+    with pathx.reading_through(thir.root(ca)):       # `let Self { origin, .. } = self; let origin = canonicalize(&origin).await?; Self { origin, .. }` is the same literal
+        got_ = [{k: pathx.desc(v).replace("^", "") for k, v in x["f"]} for x in lit_]
     wantk = {"origin": "await canonicalize::canonicalize(self.origin)?",
              "explicit_watches": "await try_join_all::try_join_all(Iterator::map(IntoIterator::into_iter(self.explicit_watches), canonicalize::canonicalize))?",
              "explicit_ignores": "await try_join_all::try_join_all(Iterator::map(IntoIterator::into_iter(self.explicit_ignores), canonicalize::canonicalize))?"}
